@@ -40,6 +40,37 @@ OPS = ['authenticate', 'authenticate_invalidate', 'refresh', 'validate',
        'invalidate', 'join', 'sign_out']
 
 
+def vocabulary():
+    """names the code under test itself uses: identifier-like string
+    constants, keyword-argument names, and replacement-field names of format
+    templates in minecraft/authentication.py (regenerated from the source on
+    every run) plus one name that occurs nowhere.  An error object may carry
+    ANY additional member; these are the ones that can possibly interact
+    with the code."""
+    import ast
+    import re
+    import string
+    import minecraft.authentication as au
+    tree = ast.parse(open(au.__file__.replace('.pyc', '.py')).read())
+    names = set()
+    for node in ast.walk(tree):
+        if isinstance(node, ast.Constant) and isinstance(node.value, str):
+            v = node.value
+            if re.match(r'[A-Za-z_][A-Za-z0-9_]*$', v):
+                names.add(v)
+            if '{' in v and len(v) < 200:
+                try:
+                    for _, field, _, _ in string.Formatter().parse(v):
+                        if field and re.match(r'[A-Za-z_]\w*$', field):
+                            names.add(field)
+                except ValueError:
+                    pass
+        elif isinstance(node, ast.keyword) and node.arg:
+            names.add(node.arg)
+    names -= {'error', 'errorMessage', 'cause'}
+    return sorted(names) + ['zzUnrelated']
+
+
 class JsonDoc:
     def __init__(self, obj):
         self.obj = obj
@@ -81,10 +112,11 @@ class Reply:
 class RequestsStub:
     codes = {'ok': 200}
 
-    def __init__(self, ctx):
+    def __init__(self, ctx, extra=False):
         self.ctx = ctx
         self.calls = []
         self.replies = []
+        self.extra = extra
 
     def post(self, url, data=None, headers=None, timeout=None, **kw):
         ctx = self.ctx
@@ -106,6 +138,8 @@ class RequestsStub:
             shape = 'valid'
         elif klass == 1:
             shape = 'empty'
+        elif self.extra:
+            shape = 'error_extra'
         else:
             shape = SHAPES[1 + concretize(ctx.int('shape%d' % k, 0, 5))]
         S = lambda n: sstr.ctx_str(ctx, '%s%d' % (n, k), 1)   # noqa: E731
@@ -117,6 +151,14 @@ class RequestsStub:
         elif shape == 'error_cause':
             body = {'error': S('err'), 'errorMessage': S('emsg'),
                     'cause': S('cause')}
+        elif shape == 'error_extra':
+            # a complete error object with one more member, its name drawn
+            # from the names the code itself uses
+            voc = vocabulary()
+            name = voc[concretize(ctx.int('extra_key%d' % k, 0,
+                                          len(voc) - 1))]
+            body = {'error': S('err'), 'errorMessage': S('emsg'),
+                    name: S('extra')}
         elif shape == 'partial':
             body = {'error': S('err')}
         elif shape == 'error_blank':
@@ -181,10 +223,10 @@ def _payload_eq(got, want):
 ANYHEX = object()
 
 
-def session(ctx, length, initial='any', sentinel=False):
+def session(ctx, length, initial='any', sentinel=False, extra=False):
     import minecraft.authentication as au
     from minecraft.exceptions import YggdrasilError
-    stub = RequestsStub(ctx)
+    stub = RequestsStub(ctx, extra)
     tok = au.AuthenticationToken()
     if initial == 'full':
         kinds = None
@@ -309,7 +351,8 @@ def _step_ok(op, before, tok, made, rep, result, exc, args, was_auth,
         cs.append(beq(exc.status_code, status))
         cs.append(_unchanged(before, tok))
         msg = exc.args[0] if exc.args else ''
-        if rep.shape in ('error', 'error_cause', 'error_blank'):
+        if rep.shape in ('error', 'error_cause', 'error_blank',
+                         'error_extra'):
             cs.append(_seq(exc.yggdrasil_error, rep.body['error']))
             cs.append(_seq(exc.yggdrasil_message, rep.body['errorMessage']))
             cs.append(_seq(exc.yggdrasil_cause, rep.body.get('cause')))
@@ -353,6 +396,10 @@ def instances(tier, seed):
         Instance('session:2:empty', 'session',
                  {'length': 2, 'initial': 'empty'}, W=64, budget_s=3000,
                  witness_every=23, max_paths=2000000),
+        Instance('session:1:full:extra', 'session',
+                 {'length': 1, 'initial': 'full', 'extra': True}, W=64,
+                 budget_s=1800, witness_every=11, max_paths=2000000,
+                 note='error objects with an additional member'),
         Instance('sentinel:session', 'session',
                  {'length': 1, 'initial': 'full', 'sentinel': True}, W=64,
                  expect='violation', budget_s=900,
